@@ -54,7 +54,7 @@ Theorem c02_normalise_idempotent : forall disable name,
 Proof. exact normalise_idem. Qed.
 Print Assumptions c02_normalise_idempotent.
 
-(* Before the repair of lib/certgen (53fb7ff) the PKINIT name of a long user name was corrupt:
+(* Before the repair of lib/certgen (0889d74) the PKINIT name of a long user name was corrupt:
    realm EXAMPLE.COM, a 100-byte name *)
 Theorem c02_old_krb_refuted : exists realm user, krb_san_old realm user <> Some (realm, user).
 Proof. exact old_krb_refuted. Qed.
